@@ -241,6 +241,68 @@ async fn emptied_then_refilled(out: &mut Out) {
     out.case(&p.text, true);
 }
 
+/// a checkpoint taken BETWEEN compactions (what a caller of the library API would do: snapshot the
+/// recovered state, `create_checkpoint`, `Manifest::compact_segments`, save), then more flushes and
+/// passes.  Oracle only (the workload model has no checkpoint operation): recovery stays exactly
+/// the merge of the confirmed updates, the passes leave the checkpoint entry alone, the manifest
+/// references only complete objects.
+async fn history_with_checkpoint_case(out: &mut Out, rng: &mut Rng) {
+    use redis_sim::streaming::{CheckpointConfig, CheckpointInfo, CheckpointManager, ManifestManager};
+    use std::sync::Arc;
+    let mut p = Proc::new(out, 1, &[]).await;
+    let mut t = rng.range(1, 20);
+    let mut all: Vec<Upd> = Vec::new();
+    let (now, ttl) = no_gc();
+    let mut chk_seen: Option<(u64, u64)> = None;
+    for round in 0..rng.range(2, 4) {
+        for _ in 0..rng.range(1, 3) {
+            for _ in 0..rng.range(1, 3) {
+                let u = gen_upd(rng, &mut t);
+                p.push(out, &u);
+                all.push(u);
+            }
+            p.flush(out).await;
+        }
+        let c = CCfg { target: *rng.pick(&[300u64, 1 << 20]), min: rng.range(1, 2), maxper: rng.range(2, 5), now, ttl };
+        let _ = p.compact(out, &c).await;
+        // the passes must not touch the checkpoint entry
+        let man_now = p.store.image().get(&format!("{}/manifest.json", PREFIX)).and_then(|b| serde_json::from_slice::<Manifest>(b).ok());
+        if let (Some((ts, last)), Some(m)) = (chk_seen, &man_now) {
+            if m.checkpoint.as_ref().map(|c| (c.timestamp_ms, c.last_segment_id)) != Some((ts, last)) {
+                out.violation("C13:checkpoint:entry-changed-by-compaction", "a compaction pass changed or dropped the manifest's checkpoint entry", json!({"workload": p.text}));
+            }
+        }
+        exact_oracle(out, &p, &all, &format!("round {} after the pass", round)).await;
+        if round == 0 || rng.chance(1, 2) {
+            // checkpoint of everything recovered so far, covering every listed segment
+            let rec = recover_image(&p.store.image(), p.rid).await;
+            if let (Ok(rs), Some(m)) = (rec, man_now) {
+                let state = fold_recovered(&rs);
+                let last = m.segments.iter().map(|s| s.id).max().unwrap_or(0);
+                let name = 1000 + round;
+                let mgr = CheckpointManager::with_time_source(Arc::new(p.store.clone()), PREFIX.to_string(), ManifestManager::new(p.store.clone(), PREFIX),
+                    CheckpointConfig { interval: Duration::from_secs(1), min_segments: 0, compression_enabled: false }, crate::c12::FixedTime(name));
+                if let Ok(res) = mgr.create_checkpoint(state.clone(), last).await {
+                    let mm = ManifestManager::new(p.store.clone(), PREFIX);
+                    if let Ok(mut m2) = mm.load_or_create(p.rid).await {
+                        m2.compact_segments(CheckpointInfo { key: res.key, timestamp_ms: res.timestamp_ms, key_count: res.key_count, last_segment_id: last });
+                        if mm.save(&m2).await.is_ok() {
+                            chk_seen = Some((name, last));
+                            out.count("hist:checkpoint-between-compactions");
+                        }
+                    }
+                }
+                exact_oracle(out, &p, &all, &format!("round {} after the checkpoint", round)).await;
+            }
+        }
+    }
+    if !crate::c12::refs_complete(&p.store.image()) {
+        out.violation("C13:manifest-references-incomplete-object", "after compactions around a checkpoint the manifest references a missing object", json!({"workload": p.text}));
+    }
+    out.count("hist:case:checkpoint-between-compactions");
+    out.case(&format!("chk-hist:{}", p.text), true);
+}
+
 /// H3: the real worker loop under the paused clock
 async fn worker_case(out: &mut Out, rng: &mut Rng) {
     let mut p = Proc::new(out, 1, &[]).await;
@@ -304,6 +366,9 @@ pub async fn run_all(out: &mut Out, rng: &mut Rng, n: u64, paused: bool) {
             if_needed_case(out, &mut r).await;
             history_case(out, &mut r).await;
             boundary_case(out, &mut r).await;
+            if r.chance(1, 3) {
+                history_with_checkpoint_case(out, &mut r).await;
+            }
         }
     }
     if !paused {
